@@ -17,7 +17,7 @@ import ast
 import re
 from typing import Dict, List, Optional, Set, Tuple
 
-from sa import orderlint, sqlx
+from sa import orderlint, sqlx, transp
 from sa.cfg import CFG, describe_path
 from sa.checks.c15 import report_issues
 from sa.core import AnalysisError, Finding, Program, Report, program, src, walk_no_nested
@@ -254,6 +254,9 @@ def run(rep: Report, tier: str) -> None:
                                 f"a set-operator query uses `{t.text}{'(' if agg else ' BY'}`: aggregating per column builds a row out of several datapoints (and aggregates skip NULLs), "
                                 f"whereas a set operator returns datapoints of its operands unchanged - e.g. union must return the FIRST operand's datapoint for a shared key, NULL measures included"))
     rep.instance("R05.6", "no-aggregation-in-set-queries", nontrivial=True, sample={"sql_texts": nsk})
+    # ---- R05.7 n-ary union: every operand is de-duplicated against ALL operands before it ----
+    rep.rule("R05.7", "union of n operands: a datapoint of operand k is dropped iff an EARLIER operand (any of them) has its identifiers - evaluated handler, recognised de-duplication forms")
+    _union_dedup(P, rep)
     rep.assumptions = ["operator arity as written in Vtl.g4", "UNION ALL matches columns by position (SQL)"]
 
 
@@ -304,3 +307,56 @@ def order_sensitive(P: Program, f, cond: ast.AST) -> Optional[bool]:
         if "set" in (ka, kb):
             return False
     return None
+
+
+def _union_dedup(P: Program, rep: Report) -> None:
+    """_visit_set_operation is evaluated (E6) for union(D1, D2, D3) over identifiers A, B.  Two ways of keeping the first occurrence per
+    identifier group are recognised: (i) ONE window over the UNION ALL of ALL operands - ROW_NUMBER() partitioned by exactly the
+    identifiers and ordered by the position in that UNION ALL; (ii) operand k (k >= 2) anti-joined / NOT EXISTS-filtered on the
+    identifiers against EVERY operand j < k (or against the accumulated result of the operands before it).  Anything else is
+    reported as not recognised (analysis error, never a silent pass)."""
+    import re as _re
+    from sa import structmodel as sm
+    from sa.e6 import Interp, Raised, Unmodelled
+    f = P.func(f"{sm.TRQ}._visit_set_operation")
+    M = sm.Model(P)
+    ds = M.ds("D1", ["A", "B"], ["M"])
+    kids = [sm.MNode("VarID", value=f"D{k}") for k in (1, 2, 3)]
+    node = sm.MNode("MulOp", op="union", children=kids)
+    ext = {"self.visit": lambda c: f'SELECT * FROM "{c.value}"', "self._get_dataset_structure": lambda c: ds, "self._get_output_dataset": lambda: None,
+           "quote_name": lambda n: f'"{n}"', "registry.sql": lambda op, *a: " UNION ALL ".join(f"({x})" for x in a), "hasattr": lambda o, n: hasattr(o, n),
+           "self._join_on_clause": lambda ids, a, b: " AND ".join(f'{a}."{i}" = {b}."{i}"' for i in ids)}
+    try:
+        txt = str(Interp(P, externals=ext).call(f, {"self": sm.MTranspiler(), "node": node, "op": "union"}))
+    except (Unmodelled, Raised) as e:
+        raise AnalysisError(f"R05.7: _visit_set_operation outside the evaluator's language: {e}")
+    rep.instance("R05.7", "union/3-operands", sample={"sql": " ".join(txt.split())[:260]})
+    flat = " ".join(txt.split())
+    occ = {k: len(_re.findall(rf'FROM "D{k}"', flat)) for k in (1, 2, 3)}
+    # form (i)
+    win = _re.search(r"ROW_NUMBER\(\)\s+OVER\s*\(\s*PARTITION BY\s+(.*?)(?:\s+ORDER BY\s+(.*?))?\)\s*=\s*1", flat, _re.I)
+    if win and "ANTI JOIN" not in flat.upper() and "NOT EXISTS" not in flat.upper():
+        part = sorted(x.strip().strip('"') for x in win.group(1).split(","))
+        if part != ["A", "B"]:
+            rep.add(transp.fnd("R05.7", "union/partition", f, f.node.lineno, f"union keeps one datapoint per group of {part}; the groups must be the identifiers ['A', 'B']"))
+        if any(v != 1 for v in occ.values()):
+            rep.add(transp.fnd("R05.7", "union/operands-in-window", f, f.node.lineno, f"the de-duplicating window does not range over each operand exactly once (occurrences {occ})"))
+        if not win.group(2):
+            rep.add(transp.fnd("R05.7", "union/order", f, f.node.lineno, "the first-occurrence window has no ORDER BY: which operand's datapoint survives is left to the engine"))
+        return
+    # form (ii)
+    parts = [p_ for p_ in _re.split(r"\)\s*UNION ALL\s*\(", flat)]
+    if len(parts) == 3 and ("ANTI JOIN" in flat.upper() or "NOT EXISTS" in flat.upper()):
+        for k in (2, 3):
+            seg = parts[k - 1]
+            missing = [j for j in range(1, k) if f'"D{j}"' not in seg.split(f'"D{k}"', 1)[-1]]
+            rep.instance("R05.7", f"union/anti-join/operand-{k}", sample={"segment": seg[:160]})
+            if missing:
+                rep.add(transp.fnd("R05.7", f"union/anti-join/operand-{k}", f, f.node.lineno,
+                                   f"union(D1, D2, D3): the datapoints of D{k} are only filtered against {[f'D{j}' for j in range(1, k) if j not in missing]}, not against {[f'D{j}' for j in missing]}: "
+                                   f"an identifier combination that D{missing[0]} and D{k} share (and D1 lacks) is returned twice, with conflicting measures"))
+        return
+    if rep.findings:
+        rep.note("R05.7: the de-duplication form of the union branch is not one of the recognised forms; not decided (other rules already report this tree)")
+        return
+    raise AnalysisError("R05.7: the de-duplication form of the union branch is not one of the recognised forms (window over the UNION ALL of all operands; anti-join against all earlier operands)")
